@@ -338,7 +338,7 @@ func c19Case(r *Run) map[string]interface{} {
 			if rng.Intn(4) != 0 {
 				data["x"] = Pick(rng, pool)
 			}
-			edges = append(edges, map[string]interface{}{"gid": fmt.Sprintf("e%02d", i), "label": Pick(rng, []string{"e", "f"}),
+			edges = append(edges, map[string]interface{}{"gid": fmt.Sprintf("k%02d", i), "label": Pick(rng, []string{"r", "s"}),
 				"from": fmt.Sprintf("v%02d", rng.Intn(nv)), "to": fmt.Sprintf("v%02d", rng.Intn(nv)), "data": Tag(data)})
 		}
 	}
@@ -360,17 +360,31 @@ func c19Case(r *Run) map[string]interface{} {
 
 var c19Fields = []string{"x", "x", "x", "x", "y", "o.k", "o", "_data", "_gid", "_label", "$.x", "nope", "_from"}
 
-func c19Aggs(r *Run, names []string) []interface{} {
+func c19Aggs(r *Run, names []string, rows []interface{}) []interface{} {
 	rng := r.Rng
 	out := []interface{}{}
+	// fields on which a histogram returns (at least one value the cast accepts)
+	histFields := []string{}
+	for _, f := range []string{"x", "y", "o.k", "$.x"} {
+		for _, row := range rows {
+			if c19Numericish(c19Lookup(row.(map[string]interface{}), f)) {
+				histFields = append(histFields, f)
+				break
+			}
+		}
+	}
 	for _, n := range names {
 		f := Pick(rng, c19Fields)
 		var a map[string]interface{}
-		switch rng.Intn(7) {
+		k := rng.Intn(8)
+		if (k == 2 || k == 7) && len(histFields) == 0 {
+			k = 0
+		}
+		switch k {
 		case 0, 1:
 			a = map[string]interface{}{"kind": "term", "field": f, "size": Pick(rng, []int{0, 0, 1, 2, 3, 5, 100})}
-		case 2:
-			a = map[string]interface{}{"kind": "histogram", "field": f, "interval": Pick(rng, []int{1, 2, 3, 5, 10, 100, 7})}
+		case 2, 7:
+			a = map[string]interface{}{"kind": "histogram", "field": Pick(rng, histFields), "interval": Pick(rng, []int{1, 2, 3, 5, 10, 100, 7})}
 		case 3:
 			ps := []interface{}{}
 			for k := rng.Intn(5); k >= 0; k-- {
@@ -517,7 +531,11 @@ func c19Gen(r *Run) {
 			default:
 				na = 1 + r.Rng.Intn(5)
 			}
-			op["aggs"] = c19Aggs(r, allNames[:na])
+			probe := map[string]interface{}{"op": "agg", "verts": op["verts"], "edges": op["edges"], "pre": op["pre"],
+				"aggs": []interface{}{}, "rowsonly": true}
+			s.exec(probe)
+			prows, _ := probe["rows"].([]interface{})
+			op["aggs"] = c19Aggs(r, allNames[:na], prows)
 			s.run(r, op)
 			rows, _ := op["rows"].([]interface{})
 			r.Count(fmt.Sprintf("rows:%s", c19Bucket(len(rows))))
